@@ -47,7 +47,9 @@ enum { B_Y = 1, B_MO = 2, B_W = 4, B_D = 8, B_H = 16, B_MI = 32, B_S = 64 };
 struct val_s {
 	struct dt_dt_s v;
 	int rd, sec;
-	char text[40];
+	int ns;		/* fraction of the second, only with frac */
+	int frac;	/* operand written with .NNNNNNNNN and read with -i '%FT%T.%N' */
+	char text[48];
 };
 
 static char fmts[NMASK][NORD][NPAD][48];
@@ -148,8 +150,25 @@ prep(struct val_s *x, int cal, int rd, int sec)
 {
 	x->rd = rd;
 	x->sec = sec;
+	x->ns = 0;
+	x->frac = 0;
 	day_text(cal, rc_get(rd), sec, x->text, sizeof(x->text));
 	x->v = dt_io_strpdt(x->text, NULL, 0, NULL);
+}
+
+/* a civil date-time with a fraction of a second, read as `ddiff -i '%FT%T.%N'` reads it */
+static void
+prep_frac(struct val_s *x, int rd, int sec, int ns)
+{
+	static char fmt0[] = "%FT%T.%N";
+	static char *const fmtv[1] = {fmt0};
+	const struct rc_day *p = rc_get(rd);
+	x->rd = rd;
+	x->sec = sec;
+	x->ns = ns;
+	x->frac = 1;
+	snprintf(x->text, sizeof(x->text), "%04d-%02d-%02dT%02d:%02d:%02d.%09d", p->y, p->m, p->d, sec / 3600, sec / 60 % 60, sec % 60, ns);
+	x->v = dt_io_strpdt(x->text, fmtv, 1, NULL);
 }
 
 /* instant (seconds since 1601-01-01T00:00:00) of a value as dadd prints it; -1 if unreadable */
@@ -230,11 +249,25 @@ report(int kind, int mask, int dt, int neg, int variant, double ord, const struc
 	mask_name(mask, nm);
 	if (kind == K_VARIANT) {
 		snprintf(key, sizeof(key), "variant fmt=%s as='%s' opnd=%s sign=%s", nm, fmt, dt ? "dt" : "d", neg ? "-" : "+");
+	} else if (A->frac) {
+		/* operands with fractions of a second: one class per finest requested unit */
+		int fin = 0;
+		for (int i = 0; i < NU; i++) {
+			if (mask & (1 << i)) {
+				fin = i;
+			}
+		}
+		snprintf(key, sizeof(key), "%s finest=%%%c opnd=dt.frac sign=%s", kname[kind], UCH[fin], neg ? "-" : "+");
 	} else {
 		snprintf(key, sizeof(key), "%s fmt=%s opnd=%s sign=%s", kname[kind], nm, dt ? "dt" : "d", neg ? "-" : "+");
 	}
 	snprintf(cas, sizeof(cas), "pair %d %d %d %d %d %d", mask, dt, A->rd, A->sec, B->rd, B->sec);
-	snprintf(cmd, sizeof(cmd), "ddiff %s %s -f '%s'", A->text, B->text, fmt);
+	if (A->frac) {
+		snprintf(cas, sizeof(cas), "fpair %d %d %d %d %d %d %d", mask, A->rd, A->sec, A->ns, B->rd, B->sec, B->ns);
+		snprintf(cmd, sizeof(cmd), "ddiff -i '%%FT%%T.%%N' %s %s -f '%s'", A->text, B->text, fmt);
+	} else {
+		snprintf(cmd, sizeof(cmd), "ddiff %s %s -f '%s'", A->text, B->text, fmt);
+	}
 	ex_viol(key, ord, cas, cmd, "ddiff %s %s -f '%s' printed '%s': %s", A->text, B->text, fmt, txt, why);
 	for (int i = 0; i < ex.nviol; i++) {
 		if (!strcmp(ex.viol[i].key, key)) {
@@ -254,8 +287,10 @@ do_case(int mask, int dt, int variants, const struct val_s *A, const struct val_
 	char txt[128], why[256];
 	long long v[NU], c[NU];	/* c[unit] */
 	long long ia = (long long)A->rd * 86400LL + (dt ? A->sec : 0), ib = (long long)B->rd * 86400LL + (dt ? B->sec : 0);
-	long long delta = ib - ia, ad = delta < 0 ? -delta : delta;
-	int expect_neg = delta < 0, lead, minuses, n, nz = 0, bad = 0, rc = 0;
+	/* the exact difference in nanoseconds; everything below works on whole seconds truncated toward zero */
+	long long dfr = dt ? (long long)B->ns - A->ns : 0;
+	long long delta = (ib - ia) - ((ib - ia) > 0 && dfr < 0) + ((ib - ia) < 0 && dfr > 0), ad = delta < 0 ? -delta : delta;
+	int expect_neg = (ib - ia) < 0 || (ib == ia && dfr < 0), lead, minuses, n, nz = 0, bad = 0, rc = 0;
 	int ncomp = popcnt(mask), cls = mclass[mask], fin = 0;
 	double ord = (double)ad / 86400.0;
 	const char *fmt = fmts[mask][0][0];
@@ -350,11 +385,38 @@ do_case(int mask, int dt, int variants, const struct val_s *A, const struct val_
 			}
 			prev = i;
 		}
-		{
+		if (A->frac) {
+			EX_CTR(c_fr, "skipped:application of a month/year chain to operands with a fraction of a second (dadd prints whole seconds)");
+			++*c_fr;
+		} else {
 			const struct val_s *e = expect_neg ? (cls == 2 ? Bw : B) : (cls == 2 ? Aw : A);
 			const struct rc_day *pe = rc_get(e->rd);
-			if ((cls == 1 && pe->d > 28) || (cls == 2 && pe->isow > 52)) {
-				EX_CTR(c_clamp, "skipped:application of a month/year chain from a day-of-month > 28 or ISO week 53 (clamping: ambiguous)");
+			int clamps = 0;
+			if (cls == 1 && pe->d > 28) {
+				/* does the printed number of years, then months, lead over a month without that day? */
+				/* (including the probe "one finest unit more" when the finest unit is the year or the month) */
+				long long ty = pe->y + ((mask & B_Y) ? c[0] : 0), tm = pe->m;
+				clamps = ty > RC_MAX_YEAR || pe->d > rc_mlen((int)ty, (int)tm);
+				if (!clamps && fin == 0) {
+					clamps = ty + 1 > RC_MAX_YEAR || pe->d > rc_mlen((int)ty + 1, (int)tm);
+				}
+				if (!clamps && (mask & B_MO)) {
+					tm += c[1];
+					ty += (tm - 1) / 12;
+					tm = (tm - 1) % 12 + 1;
+					clamps = ty > RC_MAX_YEAR || pe->d > rc_mlen((int)ty, (int)tm);
+					if (!clamps && fin == 1) {
+						ty += tm == 12;
+						tm = tm % 12 + 1;
+						clamps = ty > RC_MAX_YEAR || pe->d > rc_mlen((int)ty, (int)tm);
+					}
+				}
+			} else if (cls == 2 && pe->isow > 52) {
+				long long ty = pe->isoy + c[0];
+				clamps = ty > RC_MAX_YEAR || rc_isoweeks((int)ty) < 53;
+			}
+			if (clamps) {
+				EX_CTR(c_clamp, "skipped:application of a month/year chain that passes a month without the start's day-of-month (or a year without week 53): dadd clamps, ambiguous");
 				++*c_clamp;
 			} else if (!bad) {
 				char units[160] = "", got[64], one[16];
@@ -1120,6 +1182,51 @@ do_extra(int i, int j, int ni, const struct val_s *dv, const struct val_s *dve)
 	}
 }
 
+/* (j) operands with fractions of a second */
+static const int fr_base[12][4] = {
+	{2012, 1, 1, 0}, {2012, 1, 1, 1}, {2012, 1, 1, 59}, {2012, 1, 1, 60}, {2012, 1, 1, 3599}, {2012, 1, 1, 86399},
+	{2012, 1, 2, 0}, {2012, 1, 3, 0}, {2012, 2, 29, 43200}, {2012, 3, 1, 0}, {2011, 12, 31, 86399}, {2013, 1, 1, 1},
+};
+static const int fr_ns[5] = {0, 100000000, 500000000, 900000000, 999999999};
+#define NFRAC	60
+
+static void
+frac_operand(struct val_s *x, int k)
+{
+	const int *b = fr_base[k / 5];
+	prep_frac(x, rc_rd(b[0], b[1], b[2]), b[3], fr_ns[k % 5]);
+}
+
+/* what the undocumented duration specifier %N does: counted, not judged */
+static void
+observe_nano(const struct val_s *A, const struct val_s *B)
+{
+	static durfmt_t f1, f2;
+	static int init;
+	char t[128], e[128];
+	long long dns = (((long long)B->rd - A->rd) * 86400LL + (B->sec - A->sec)) * 1000000000LL + ((long long)B->ns - A->ns);
+	long long a = dns < 0 ? -dns : dns;
+	EX_CTR(c_eval, "evaluations");
+	EX_CTR(c_o1, "observed:'%S.%N' on date-times prints something else than the seconds and nanoseconds of the difference (%N is no documented duration specifier)");
+	EX_CTR(c_o2, "observed:'%d %H:%M:%S.%N' on date-times prints something else than the exact difference (%N is no documented duration specifier)");
+	EX_CTR(c_o0, "observed:pairs of fractional date-times printed with %N formats");
+
+	if (!init) {
+		f1 = determine_durfmt("%S.%N");
+		f2 = determine_durfmt("%d %H:%M:%S.%N");
+		init = 1;
+	}
+	++*c_o0;
+	ddiff_pipe(t, sizeof(t), "%S.%N", f1, A->v, B->v);
+	snprintf(e, sizeof(e), "%s%lld.%09lld", dns < 0 ? "-" : "", a / 1000000000LL, a % 1000000000LL);
+	*c_o1 += strcmp(t, e) != 0;
+	ddiff_pipe(t, sizeof(t), "%d %H:%M:%S.%N", f2, A->v, B->v);
+	snprintf(e, sizeof(e), "%s%lld %lld:%lld:%lld.%09lld", dns < 0 ? "-" : "", a / 86400000000000LL, a / 3600000000000LL % 24,
+		 a / 60000000000LL % 60, a / 1000000000LL % 60, a % 1000000000LL);
+	*c_o2 += strcmp(t, e) != 0;
+	*c_eval += 2;
+}
+
 int
 main(int argc, char *argv[])
 {
@@ -1164,6 +1271,17 @@ main(int argc, char *argv[])
 		int mask, dt, ra, sa, rb, sb, bad;
 		struct val_s A, B, Aw, Bw;
 		replay_mode = 1;
+		if (!strncmp(ex.cas, "fpair ", 6)) {
+			int na, nb;
+			if (sscanf(ex.cas + 6, "%d %d %d %d %d %d %d", &mask, &ra, &sa, &na, &rb, &sb, &nb) != 7 || mask < 1 || mask >= NMASK ||
+			    ra < 0 || rb < 0 || ra >= RC_NDAYS || rb >= RC_NDAYS) {
+				return ex_replay_result(1, "bad case '%s'", ex.cas);
+			}
+			prep_frac(&A, ra, sa, na);
+			prep_frac(&B, rb, sb, nb);
+			bad = do_case(mask, 1, 0, &A, &B, &A, &B);
+			return ex_replay_result(bad != 0, "fmt=%s %s %s", fmts[mask][0][0], A.text, B.text);
+		}
 		if (!strncmp(ex.cas, "x ", 2)) {
 			char part[16];
 			int fi, w, ia, ib, n;
@@ -1253,8 +1371,8 @@ main(int argc, char *argv[])
 		"unique tuple with conserved sum, natural ranges and the coarsest unit carrying the rest; %d month/year chains the documentation calls "
 		"expressible are judged by months < 12 under years, generous natural ranges (days < 31 under months, < 366 under years, weeks < 54 under "
 		"years, ...) and by application: earlier (+) components through dadd's parser and dt_dtadd must not pass the later value and be less than one "
-		"finest unit short (years+weeks chains are applied to the ISO week date operand, as ddiff counts them; only from day-of-month <= 28 / ISO week "
-		"<= 52); %d subsets the documentation declares inexpressible (month/year with a time unit but no %%d) are judged for sign and parseable output only; "
+		"finest unit short (years+weeks chains are applied to the ISO week date operand, as ddiff counts them; only when no step of the application passes a month "
+		"without the start's day-of-month, resp. a year without week 53, where dadd clamps); %d subsets the documentation declares inexpressible (month/year with a time unit but no %%d) are judged for sign and parseable output only; "
 		"sign: exactly one '-', in front, iff the second operand is earlier (not judged on all-zero output); for date-time pairs the ascending and a "
 		"rotated order and the %%0 and '%% ' paddings must print the same numbers. non-trivial = the time-of-day difference (for dates: the day-of-month difference) "
 		"runs against the day difference (borrow); repeated specifiers: every occurrence of a specifier prints the number the single occurrence prints "
@@ -1265,7 +1383,9 @@ main(int argc, char *argv[])
 		"through dadd must not pass the later value and be less than one finest unit short), business days < 5 under weeks, minutes/seconds < 60; "
 		"%%rS inside month/year/business-day formats: its slot = the %%S slot of the same format + the leap seconds between the operands (taken from the tool's own -f %%rS minus -f %%S). "
 		"Reading kept for %%Y with time units but without %%m %%w %%d (audit F1: months silently dropped): info/format-ddiff.texi lists only %%m %%w %%d as refinements of %%Y "
-		"and %%H %%M %%S only as refinements of %%d, and says a chain without %%d is 'not possible', so such subsets stay shape-and-sign only",
+		"and %%H %%M %%S only as refinements of %%d, and says a chain without %%d is 'not possible', so such subsets stay shape-and-sign only; "
+		"operands with a fraction of a second (read with -i '%%FT%%T.%%N'): the 31 fixed-unit subsets are judged against the exact difference in nanoseconds truncated toward zero "
+		"to the finest requested unit; %%N as a DURATION specifier is not in info/format-ddiff.texi, what '%%S.%%N' and '%%d %%H:%%M:%%S.%%N' print is only counted (observed:...)",
 		nfix, ncal, ninex);
 	ex_meta("bound", "(a) %d boundary days x 7 times of day = %d date-times, all ordered pairs x 127 subsets x (1 + up to 8 order/padding variants); "
 		"(b) dates: every day of %s x partner at distance -%d..%d x 127 subsets; operands in y-m-d; "
@@ -1275,7 +1395,9 @@ main(int argc, char *argv[])
 		"with different paddings, %%S/%%rS in both orders), each against its duplicate-free format; binding: one ddiff process per such format; "
 		"(e) the 420 date-times epoch-held (@N) x 127 subsets: both operands, epoch vs civil, civil vs epoch; (f) each of the 60 days as date-only operand against the 420 epoch-held date-times, "
 		"both orders x 127 subsets; (g) the 420 date-times, all ordered pairs x 17 formats with %%db (with and without %%w, all subsets of %%H %%M %%S, and bizsi); "
-		"(h) the 432 date-times of (d), all ordered pairs x 51 formats with %%rS next to months, years or business days",
+		"(h) the 432 date-times of (d), all ordered pairs x 51 formats with %%rS next to months, years or business days; "
+		"(i) dates: day-of-year 58..61 of 1896 1899 1900 1903 1904 1999 2000 2001 2096 2100 against every day of the following two years, both orders x the 64 subsets with %%Y; "
+		"(j) 12 date-times x fractions .0 .1 .5 .9 .999999999 = 60 operands, all ordered pairs x 127 subsets (month/year chains: sign and shape only)",
 		nd, ni, ex.thorough ? "1997-2004 and 1897-1904" : "1997-2004", K, K, ni, ni + NLEAPI, NLEAPI, ndup);
 	ex_meta("binding", "ddiff REF -f SUBSET < date-times, byte-compared with the included pipeline");
 
@@ -1342,6 +1464,48 @@ main(int argc, char *argv[])
 			}
 		}
 		do_binding(m, iv, ni);
+	}
+	/* (i) starts on and around the leap day against every end of the following two years, year chains */
+	{
+		static const int ys[10] = {1896, 1899, 1900, 1903, 1904, 1999, 2000, 2001, 2096, 2100};
+		for (int k = 0; k < 40 && !ex_expired(); k++, slice++) {
+			struct val_s A, Aw, B, Bw;
+			int a;
+			if (!ex_mine((uint64_t)slice)) {
+				continue;
+			}
+			a = rc_yearstart[ys[k / 4]] + 57 + k % 4;
+			prep(&A, CAL_YMD, a, -1);
+			prep(&Aw, CAL_YWD, a, -1);
+			++*c_states;
+			for (int b = a + 1; b <= a + 731 && b < RC_NDAYS; b++) {
+				prep(&B, CAL_YMD, b, -1);
+				prep(&Bw, CAL_YWD, b, -1);
+				for (int m = 1; m < NMASK; m += 2) {
+					/* odd masks: the ones with %Y */
+					do_case(m, 0, 0, &A, &B, &Aw, &Bw);
+					do_case(m, 0, 0, &B, &A, &Bw, &Aw);
+				}
+			}
+			++*c_traces;
+		}
+	}
+	/* (j) fractions of a second */
+	for (int i = 0; i < NFRAC && !ex_expired(); i++, slice++) {
+		struct val_s A, B;
+		if (!ex_mine((uint64_t)slice)) {
+			continue;
+		}
+		frac_operand(&A, i);
+		++*c_states;
+		for (int j = 0; j < NFRAC; j++) {
+			frac_operand(&B, j);
+			for (int m = 1; m < NMASK; m++) {
+				do_case(m, 1, 0, &A, &B, &A, &B);
+			}
+			observe_nano(&A, &B);
+		}
+		++*c_traces;
 	}
 	/* (d) repeated specifiers */
 	{
